@@ -75,8 +75,17 @@ def run(c):
     c.mc_bg('MC_Nonce')
     c.mc_bg('MC_Nonce', 'MC_Nonce3')
     c.mc_bg('MC_Aead', 'MC_Aead' if c.tier == 'thorough' else 'MC_AeadQ')
+    # unbounded, by SMT: for base 256 x 16 digits the closed form of the increment (NonceClosed.tla, which
+    # MC_Nonce checks equal to the recursive operator of the trace spec) is +1 modulo 2^128 for every nonce,
+    # and "stored nonce = N + successful packets (mod 2^128)" is an inductive invariant of the session
+    c.apalache_bg('NonceInd', 'Init', 'StepLemma', 0)
+    c.apalache_bg('NonceInd', 'Init', 'IndInv', 0)
+    c.apalache_bg('NonceInd', 'IndInv', 'IndInv', 1)
+    if c.tier == 'thorough':
+        c.apalache_bg('NonceInd', 'Init', 'BadLemma', 0, must_fail=True)     # saturating instead of wrapping: must be refuted
     p = gen(c)
-    c.assumptions += ['the carry arithmetic is exhausted on scaled nonces (base 2 x 16 digits, base 3 x 9 digits) with the operator the trace spec uses at base 256; the real code is driven through every carry-chain length 0..16',
+    c.assumptions += ['Apalache 0.58 discharges NonceInd.tla: base case and inductive step of Val(nonce) + wraps * 2^128 = N + good over all 2^128 nonces (no bound on the number of packets); the link to the code is the trace validation below plus MC_Nonce\'s ClosedIsRecursive on the scaled domains',
+                      'the carry arithmetic is exhausted on scaled nonces (base 2 x 16 digits, base 3 x 9 digits) with the operator the trace spec uses at base 256; the real code is driven through every carry-chain length 0..16',
                       'the C++ nonce is private: it is tracked by the specification and judged through the ciphertexts (packet i must equal the C function under N+i)']
     c.tv(p, 'rel', 'nonce', max_cost=25.0)
     if c.tier == 'thorough':
